@@ -786,3 +786,386 @@ Theorem C04_ex_merge_consistent :
              (TypedExamples.TypedEx.sub_of m) = Some (Some [[[52]]]).
 Proof. exact TypedExamples.TypedEx.ex_merge_consistent. Qed.
 Print Assumptions C04_ex_merge_consistent.
+
+(** ===================================================================================================
+    ROUND 4: the parser model names the boolish / falsey / non-empty / possible-value parsers and the ranged
+    parsers of every integer width (Cmd.vparser: VPBoolish, VPFalsey, VPNonEmpty, VPPossible ic pvs,
+    VPRanged t lo hi; Parser.vp_parse delegates to the models of Value/*.v).  Every whole-parse theorem above
+    (C04_parser_typed_levels, C04_parse_top_typed, C04_merge_typed, C04_never_stored, C04_value_error_sound,
+    the C04_parse_store theorems) now quantify over commands using them; C04_vp_bridge covers them through embed.
+    Below: what a stored value of each looks like (ParseProofs/TypedWide.v).
+    =================================================================================================== *)
+From ClapModel Require ParseProofs.TypedWide ParseProofs.TypedWideExamples ParseProofs.ErrorSound.
+
+(** LANGUAGE EQUALITY for all ten parser names of the parser model: accepted by vp_parse <-> in the documented
+    language, with the typed value stored next to the raw one (both directions: nothing outside the language is
+    ever stored, nothing inside it is refused). *)
+Theorem C04_accepts_reading :
+  forall (vp : Cmd.vparser) (s : bytes), TypedInv.accepts vp s <-> TypedWide.stored_reading vp s.
+Proof. exact TypedWide.accepts_reading. Qed.
+Print Assumptions C04_accepts_reading.
+
+(** ... where stored_reading says, for the five parsers of this round: boolish = one of the documented literals
+    (tables regenerated from str_to_bool.rs) ASCII-case-insensitively, typed value its truth value; falsey = any
+    well-formed string, false exactly for "" and the false literals; non-empty; possible values = a declared name
+    or alias of ANY value of the list (hidden or not), compared by name_eq (equality without ignore_case, caseless
+    with it); ranged = a decimal ([+-]?[0-9]+, +?[0-9]+ for u64) whose UNBOUNDED reading lies in the declared bounds
+    and in the target type, typed value that reading. *)
+Theorem C04_stored_reading_wide :
+  forall s : bytes,
+  (TypedWide.stored_reading Cmd.VPBoolish s <->
+   utf8_valid s = true /\
+   exists b : bool, (exists l, In l (literals b) /\ ascii_ci_eq s l) /\
+                    TypedView.typed_value Cmd.VPBoolish s = Some (TypedView.TVal (TVBool b))) /\
+  (TypedWide.stored_reading Cmd.VPFalsey s <->
+   utf8_valid s = true /\
+   exists b : bool, (b = false <-> s = [] \/ exists l, In l false_literals /\ ascii_ci_eq s l) /\
+                    TypedView.typed_value Cmd.VPFalsey s = Some (TypedView.TVal (TVBool b))) /\
+  (TypedWide.stored_reading Cmd.VPNonEmpty s <->
+   s <> [] /\ utf8_valid s = true /\ TypedView.typed_value Cmd.VPNonEmpty s = Some (TypedView.TVal (TVStr s))) /\
+  (forall (ic : bool) (pvs : list (possible_value * bool)),
+   TypedWide.stored_reading (Cmd.VPPossible ic pvs) s <->
+   utf8_valid s = true /\
+   (exists pv h n, In (pv, h) pvs /\ In n (name_and_aliases pv) /\ name_eq Parser.clap_unicode ic n s) /\
+   TypedView.typed_value (Cmd.VPPossible ic pvs) s = Some (TypedView.TVal (TVStr s))) /\
+  (forall (t : ity) (lo hi : Z),
+   TypedWide.stored_reading (Cmd.VPRanged t lo hi) s <->
+   (utf8_valid s = true /\ decimal (TypedWide.ranged_signed t) s /\
+    (lo <= intval s <= hi)%Z /\ (ity_min t <= intval s <= ity_max t)%Z) /\
+   TypedView.typed_value (Cmd.VPRanged t lo hi) s = Some (TypedView.TVal (TVInt (intval s)))).
+Proof. exact TypedWide.stored_reading_wide_spec. Qed.
+Print Assumptions C04_stored_reading_wide.
+
+(** any typed level (C04_parser_typed_levels supplies them), an entry of an argument with that parser *)
+Theorem C04_stored_boolish :
+  forall (c : Cmd.cmd) (l : list (Cmd.id * Matcher.marg)),
+         TypedInv.typed_entries c l ->
+         forall (i : Cmd.id) (m : Matcher.marg) (a : Cmd.arg),
+         In (i, m) l ->
+         Cmd.find_arg c i = Some a ->
+         Cmd.a_vp a = Some Cmd.VPBoolish ->
+         Forall
+           (Forall
+              (fun s : bytes =>
+               utf8_valid s = true /\
+               exists b : bool, (exists lit, In lit (literals b) /\ ascii_ci_eq s lit) /\
+                                TypedView.typed_value Cmd.VPBoolish s = Some (TypedView.TVal (TVBool b))))
+           (Matcher.m_raw m).
+Proof. exact TypedWide.stored_boolish. Qed.
+Print Assumptions C04_stored_boolish.
+
+Theorem C04_stored_falsey :
+  forall (c : Cmd.cmd) (l : list (Cmd.id * Matcher.marg)),
+         TypedInv.typed_entries c l ->
+         forall (i : Cmd.id) (m : Matcher.marg) (a : Cmd.arg),
+         In (i, m) l ->
+         Cmd.find_arg c i = Some a ->
+         Cmd.a_vp a = Some Cmd.VPFalsey ->
+         Forall
+           (Forall
+              (fun s : bytes =>
+               utf8_valid s = true /\
+               exists b : bool, (b = false <-> s = [] \/ exists lit, In lit false_literals /\ ascii_ci_eq s lit) /\
+                                TypedView.typed_value Cmd.VPFalsey s = Some (TypedView.TVal (TVBool b))))
+           (Matcher.m_raw m).
+Proof. exact TypedWide.stored_falsey. Qed.
+Print Assumptions C04_stored_falsey.
+
+Theorem C04_stored_nonempty :
+  forall (c : Cmd.cmd) (l : list (Cmd.id * Matcher.marg)),
+         TypedInv.typed_entries c l ->
+         forall (i : Cmd.id) (m : Matcher.marg) (a : Cmd.arg),
+         In (i, m) l ->
+         Cmd.find_arg c i = Some a ->
+         Cmd.a_vp a = Some Cmd.VPNonEmpty ->
+         Forall
+           (Forall
+              (fun s : bytes =>
+               s <> [] /\ utf8_valid s = true /\
+               TypedView.typed_value Cmd.VPNonEmpty s = Some (TypedView.TVal (TVStr s)))) (Matcher.m_raw m).
+Proof. exact TypedWide.stored_nonempty. Qed.
+Print Assumptions C04_stored_nonempty.
+
+(** possible values: every stored string is a declared name or alias of some value of the list -- hidden values
+    included --, byte for byte when ic = false, caselessly when ic = true; the typed value is the string as typed *)
+Theorem C04_stored_possible :
+  forall (c : Cmd.cmd) (l : list (Cmd.id * Matcher.marg)),
+         TypedInv.typed_entries c l ->
+         forall (i : Cmd.id) (m : Matcher.marg) (a : Cmd.arg),
+         In (i, m) l ->
+         Cmd.find_arg c i = Some a ->
+         forall (ic : bool) (pvs : list (possible_value * bool)),
+         Cmd.a_vp a = Some (Cmd.VPPossible ic pvs) ->
+         Forall
+           (Forall
+              (fun s : bytes =>
+               utf8_valid s = true /\
+               (exists pv h n, In (pv, h) pvs /\ In n (name_and_aliases pv) /\ name_eq Parser.clap_unicode ic n s) /\
+               TypedView.typed_value (Cmd.VPPossible ic pvs) s = Some (TypedView.TVal (TVStr s))))
+           (Matcher.m_raw m).
+Proof. exact TypedWide.stored_possible. Qed.
+Print Assumptions C04_stored_possible.
+
+(** ... and that ic is the ARGUMENT's ignore_case setting for every argument the spec reader builds (pv_coherent) *)
+Theorem C04_stored_possible_arg :
+  forall (c : Cmd.cmd) (l : list (Cmd.id * Matcher.marg)) (i : Cmd.id) (m : Matcher.marg) (a : Cmd.arg)
+         (ic : bool) (pvs : list (possible_value * bool)),
+         TypedInv.typed_entries c l ->
+         In (i, m) l ->
+         Cmd.find_arg c i = Some a ->
+         Cmd.a_vp a = Some (Cmd.VPPossible ic pvs) ->
+         Cmd.pv_coherent a = true ->
+         Forall
+           (Forall
+              (fun s : bytes =>
+               utf8_valid s = true /\
+               exists pv h n, In (pv, h) pvs /\ In n (name_and_aliases pv) /\
+                              name_eq Parser.clap_unicode (Cmd.a_ignore_case a) n s)) (Matcher.m_raw m).
+Proof. exact TypedWide.stored_possible_arg. Qed.
+Print Assumptions C04_stored_possible_arg.
+
+(** ranged integer of any width: decimal, unbounded reading inside the declared bounds AND the type, typed value =
+    that reading (never wrapped, never truncated) *)
+Theorem C04_stored_ranged :
+  forall (c : Cmd.cmd) (l : list (Cmd.id * Matcher.marg)),
+         TypedInv.typed_entries c l ->
+         forall (i : Cmd.id) (m : Matcher.marg) (a : Cmd.arg),
+         In (i, m) l ->
+         Cmd.find_arg c i = Some a ->
+         forall (t : ity) (lo hi : Z),
+         Cmd.a_vp a = Some (Cmd.VPRanged t lo hi) ->
+         Forall
+           (Forall
+              (fun s : bytes =>
+               (utf8_valid s = true /\ decimal (TypedWide.ranged_signed t) s /\
+                (lo <= intval s <= hi)%Z /\ (ity_min t <= intval s <= ity_max t)%Z) /\
+               TypedView.typed_value (Cmd.VPRanged t lo hi) s = Some (TypedView.TVal (TVInt (intval s)))))
+           (Matcher.m_raw m).
+Proof. exact TypedWide.stored_ranged. Qed.
+Print Assumptions C04_stored_ranged.
+
+(** HIDDEN possible values are values: a declared name or alias is accepted whether or not hide(true) was called on
+    its value, with or without ignore_case (a seeded change filtered hidden values out before matching). *)
+Theorem C04_hidden_accepted :
+  forall (ic : bool) (pvs : list (possible_value * bool)) (pv : possible_value) (h : bool) (n : bytes),
+         In (pv, h) pvs -> In n (name_and_aliases pv) -> utf8_valid n = true ->
+         TypedInv.accepts (Cmd.VPPossible ic pvs) n /\
+         TypedView.typed_value (Cmd.VPPossible ic pvs) n = Some (TypedView.TVal (TVStr n)).
+Proof. exact TypedWide.hidden_accepted. Qed.
+Print Assumptions C04_hidden_accepted.
+
+(** case-insensitively ONLY when asked: without ignore_case exactly the declared spellings are accepted *)
+Theorem C04_possible_exact :
+  forall (pvs : list (possible_value * bool)) (s : bytes),
+         TypedInv.accepts (Cmd.VPPossible false pvs) s <->
+         utf8_valid s = true /\ exists pv h, In (pv, h) pvs /\ In s (name_and_aliases pv).
+Proof. exact TypedWide.possible_exact. Qed.
+Print Assumptions C04_possible_exact.
+
+(** ... and with it, ASCII names match ASCII candidates ASCII-case-insensitively *)
+Theorem C04_possible_caseless :
+  forall (pvs : list (possible_value * bool)) (pv : possible_value) (h : bool) (n s : bytes),
+         In (pv, h) pvs -> In n (name_and_aliases pv) -> is_ascii n = true -> is_ascii s = true ->
+         ascii_ci_eq n s -> TypedInv.accepts (Cmd.VPPossible true pvs) s.
+Proof. exact TypedWide.possible_caseless. Qed.
+Print Assumptions C04_possible_caseless.
+
+(** a ranged parser of a narrow type never accepts a string whose reading is outside the type, whatever bounds were
+    declared; and every decimal inside both is accepted *)
+Theorem C04_ranged_no_wrap :
+  forall (t : ity) (lo hi : Z) (s : bytes),
+         TypedInv.accepts (Cmd.VPRanged t lo hi) s ->
+         (ity_min t <= intval s <= ity_max t)%Z /\ (lo <= intval s <= hi)%Z.
+Proof. exact TypedWide.ranged_no_wrap. Qed.
+Print Assumptions C04_ranged_no_wrap.
+
+Theorem C04_ranged_complete :
+  forall (t : ity) (lo hi : Z) (s : bytes),
+         utf8_valid s = true -> decimal (TypedWide.ranged_signed t) s ->
+         (lo <= intval s <= hi)%Z -> (ity_min t <= intval s <= ity_max t)%Z ->
+         TypedInv.accepts (Cmd.VPRanged t lo hi) s.
+Proof. exact TypedWide.ranged_complete. Qed.
+Print Assumptions C04_ranged_complete.
+
+(** AT parse_top, every level of what is reported, through the globals merge (hypothesis globals_consistent as in
+    C04_do_parse_merged_typed; trivially true when no global argument is in use): whatever the accessors can reach
+    under an id lies in the documented language of the parser the level's definition gives that id. *)
+Theorem C04_parse_top_stored :
+  forall (c0 : Cmd.cmd) (argv : list bytes) (m : Matcher.matches),
+         Parser.parse_top c0 argv = Parser.OOk m ->
+         exists (c0' : Cmd.cmd) (st : Parser.ps) (sps : list TypedMerge.spec),
+           (c0' = c0 \/ (exists b : bytes, c0' = TypedInv.with_bin c0 (Some b))) /\
+           m = Relations.reported c0' st /\
+           TypedMerge.chain_specs (Build.build_self c0') (Matcher.into_inner (Parser.mt st)) sps /\
+           (TypedMerge.globals_consistent
+              (Parser.used_global_args (S (Parser.matches_depth (Matcher.into_inner (Parser.mt st))))
+                 (Build.build_recursive (S (S (Cmd.depth (Build.build_self c0')))) c0')
+                 (Matcher.into_inner (Parser.mt st))) sps (Globals.levels (Matcher.into_inner (Parser.mt st))) ->
+            Forall2 TypedWide.read_lv sps (Globals.levels m)).
+Proof. exact TypedWide.parse_top_stored. Qed.
+Print Assumptions C04_parse_top_stored.
+
+(** the root level spelled out: what get_raw of the top-level ArgMatches returns for an argument of the built root
+    definition *)
+Theorem C04_parse_top_root_stored :
+  forall (c0 : Cmd.cmd) (argv : list bytes) (m : Matcher.matches),
+         Parser.parse_top c0 argv = Parser.OOk m ->
+         exists (c0' : Cmd.cmd) (st : Parser.ps) (sps : list TypedMerge.spec),
+           (c0' = c0 \/ (exists b : bytes, c0' = TypedInv.with_bin c0 (Some b))) /\
+           m = Relations.reported c0' st /\
+           TypedMerge.chain_specs (Build.build_self c0') (Matcher.into_inner (Parser.mt st)) sps /\
+           (TypedMerge.globals_consistent
+              (Parser.used_global_args (S (Parser.matches_depth (Matcher.into_inner (Parser.mt st))))
+                 (Build.build_recursive (S (S (Cmd.depth (Build.build_self c0')))) c0')
+                 (Matcher.into_inner (Parser.mt st))) sps (Globals.levels (Matcher.into_inner (Parser.mt st))) ->
+            forall (i : Cmd.id) (ma : Matcher.marg) (a : Cmd.arg) (vp : Cmd.vparser),
+            Matcher.fm_get i (Matcher.ms_args m) = Some ma ->
+            Cmd.find_arg (Build.build_self c0') i = Some a ->
+            Cmd.a_vp a = Some vp -> Forall (Forall (TypedWide.stored_reading vp)) (Matcher.m_raw ma)).
+Proof. exact TypedWide.parse_top_root_stored. Qed.
+Print Assumptions C04_parse_top_root_stored.
+
+(** what read_lv says *)
+Theorem C04_read_lv_spec :
+  forall (sp : TypedMerge.spec) (l : list (Cmd.id * Matcher.marg)),
+         TypedWide.read_lv sp l <->
+         (forall (i : Cmd.id) (ma : Matcher.marg) (vp : Cmd.vparser),
+          Matcher.fm_get i l = Some ma -> sp i = Some vp ->
+          Forall (Forall (TypedWide.stored_reading vp)) (Matcher.m_raw ma)).
+Proof. exact TypedWide.read_lv_spec. Qed.
+Print Assumptions C04_read_lv_spec.
+
+(** the carrier of value_parser!(T) in the parser model is the one the regenerated factory table gives *)
+Theorem C04_ity_pkind_factory :
+  forall (dbg : bool) (t : ity), exists r : range, factory_parser dbg t = Some (Parser.ity_pkind t, r).
+Proof. exact TypedView.ity_pkind_factory. Qed.
+Print Assumptions C04_ity_pkind_factory.
+
+(** Non-vacuity (TypedWideExamples.v; each line replayed on the implementation: corpus/C04/stored_wide.typed_wide_examples.cases): a command
+    with all five parser kinds is valid and coherent, ... *)
+Theorem C04_ex_wide_valid :
+  Valid.valid TypedWideExamples.WideEx.c0 = true /\ Totality.plain TypedWideExamples.WideEx.c0 = true /\
+  forallb Cmd.pv_coherent (Cmd.c_args TypedWideExamples.WideEx.c) = true.
+Proof. exact TypedWideExamples.WideEx.ex_wide_valid. Qed.
+Print Assumptions C04_ex_wide_valid.
+
+(** ... `--mode SECRET --exact Off --level 5 --port 65535 --big 18446744073709551615 --keep "" --name x` parses and
+    stores a hidden value in another case (ignore_case), a hidden value in its exact spelling, both range ends,
+    u64::MAX, the empty string for falsey, and the env literal "YES" for the boolish flag, ... *)
+Theorem C04_ex_wide_parse :
+  exists m : Matcher.matches,
+    Parser.parse_top TypedWideExamples.WideEx.c0 TypedWideExamples.WideEx.argv = Parser.OOk m /\
+    TypedWideExamples.WideEx.raws m TypedWideExamples.WideEx.w_mode = Some [[TypedWideExamples.WideEx.s_SECRET]] /\
+    TypedWideExamples.WideEx.raws m TypedWideExamples.WideEx.w_exact = Some [[TypedWideExamples.WideEx.s_Off]] /\
+    TypedWideExamples.WideEx.raws m TypedWideExamples.WideEx.w_level = Some [[[53%N]]] /\
+    TypedWideExamples.WideEx.raws m TypedWideExamples.WideEx.w_port = Some [[TypedWideExamples.WideEx.d_65535]] /\
+    TypedWideExamples.WideEx.raws m TypedWideExamples.WideEx.w_big = Some [[TypedWideExamples.WideEx.d_u64max]] /\
+    TypedWideExamples.WideEx.raws m TypedWideExamples.WideEx.w_on = Some [[TypedWideExamples.WideEx.s_YES]] /\
+    TypedWideExamples.WideEx.raws m TypedWideExamples.WideEx.w_keep = Some [[[]]] /\
+    TypedWideExamples.WideEx.raws m TypedWideExamples.WideEx.w_name = Some [[[120%N]]].
+Proof. exact TypedWideExamples.WideEx.ex_wide_parse. Qed.
+Print Assumptions C04_ex_wide_parse.
+
+(** ... with these typed values, ... *)
+Theorem C04_ex_wide_typed :
+  TypedView.typed_value (Cmd.VPPossible true TypedWideExamples.WideEx.mode_pvs) TypedWideExamples.WideEx.s_SECRET =
+    Some (TypedView.TVal (TVStr TypedWideExamples.WideEx.s_SECRET)) /\
+  TypedView.typed_value (Cmd.VPRanged U16 1024 65535) TypedWideExamples.WideEx.d_65535 =
+    Some (TypedView.TVal (TVInt 65535)) /\
+  TypedView.typed_value (Cmd.VPRanged U64 0 TypedWideExamples.WideEx.u64_max) TypedWideExamples.WideEx.d_u64max =
+    Some (TypedView.TVal (TVInt TypedWideExamples.WideEx.u64_max)) /\
+  TypedView.typed_value Cmd.VPBoolish TypedWideExamples.WideEx.s_YES = Some (TypedView.TVal (TVBool true)) /\
+  TypedView.typed_value Cmd.VPFalsey [] = Some (TypedView.TVal (TVBool false)) /\
+  TypedView.typed_value Cmd.VPFalsey TypedWideExamples.WideEx.s_off = Some (TypedView.TVal (TVBool false)) /\
+  TypedView.typed_value Cmd.VPFalsey [120%N] = Some (TypedView.TVal (TVBool true)) /\
+  TypedView.typed_value Cmd.VPNonEmpty [120%N] = Some (TypedView.TVal (TVStr [120%N])).
+Proof. exact TypedWideExamples.WideEx.ex_wide_typed. Qed.
+Print Assumptions C04_ex_wide_typed.
+
+(** ... and the rejections name the argument: 65536 does not wrap in a u16, 6 and 261 (= 5 mod 256) are outside
+    1..=5, "-0" and 2^64 are no u64, "off" is not "Off" without ignore_case, "fas" is no name, "" is empty, a
+    non-UTF-8 byte is InvalidUtf8 (the model's error carries the id; the implementation's message does not print
+    it: known finding C04-invalid-utf8-unnamed) *)
+Theorem C04_ex_wide_reject :
+  TypedWideExamples.WideEx.rejects
+    [[112%N]; TypedWideExamples.WideEx.dd TypedWideExamples.WideEx.w_port; TypedWideExamples.WideEx.d_65536]
+    Errors.EValueValidation TypedWideExamples.WideEx.w_port /\
+  TypedWideExamples.WideEx.rejects
+    [[112%N]; TypedWideExamples.WideEx.dd TypedWideExamples.WideEx.w_level; [54%N]]
+    Errors.EValueValidation TypedWideExamples.WideEx.w_level /\
+  TypedWideExamples.WideEx.rejects
+    [[112%N]; TypedWideExamples.WideEx.dd TypedWideExamples.WideEx.w_level; [50%N; 54%N; 49%N]]
+    Errors.EValueValidation TypedWideExamples.WideEx.w_level /\
+  TypedWideExamples.WideEx.rejects
+    [[112%N]; TypedWideExamples.WideEx.dd (TypedWideExamples.WideEx.w_big ++ [61%N; 45%N; 48%N])]
+    Errors.EValueValidation TypedWideExamples.WideEx.w_big /\
+  TypedWideExamples.WideEx.rejects
+    [[112%N]; TypedWideExamples.WideEx.dd TypedWideExamples.WideEx.w_big; TypedWideExamples.WideEx.d_u64over]
+    Errors.EValueValidation TypedWideExamples.WideEx.w_big /\
+  TypedWideExamples.WideEx.rejects
+    [[112%N]; TypedWideExamples.WideEx.dd TypedWideExamples.WideEx.w_exact; TypedWideExamples.WideEx.s_off]
+    Errors.EInvalidValue TypedWideExamples.WideEx.w_exact /\
+  TypedWideExamples.WideEx.rejects
+    [[112%N]; TypedWideExamples.WideEx.dd TypedWideExamples.WideEx.w_mode; [102%N; 97%N; 115%N]]
+    Errors.EInvalidValue TypedWideExamples.WideEx.w_mode /\
+  TypedWideExamples.WideEx.rejects
+    [[112%N]; TypedWideExamples.WideEx.dd TypedWideExamples.WideEx.w_name; []]
+    Errors.EInvalidValue TypedWideExamples.WideEx.w_name /\
+  TypedWideExamples.WideEx.rejects
+    [[112%N]; TypedWideExamples.WideEx.dd TypedWideExamples.WideEx.w_keep; [255%N]]
+    Errors.EInvalidUtf8 TypedWideExamples.WideEx.w_keep.
+Proof. exact TypedWideExamples.WideEx.ex_wide_reject. Qed.
+Print Assumptions C04_ex_wide_reject.
+
+(** the hypotheses of C04_parse_top_root_stored are satisfiable: that parse, one level, no global in use *)
+Theorem C04_ex_wide_root :
+  exists (m : Matcher.matches) (st : Parser.ps),
+    Parser.parse_top TypedWideExamples.WideEx.c0 TypedWideExamples.WideEx.argv = Parser.OOk m /\
+    m = Relations.reported TypedWideExamples.WideEx.c0 st /\
+    TypedMerge.chain_specs (Build.build_self TypedWideExamples.WideEx.c0) (Matcher.into_inner (Parser.mt st))
+      [TypedMerge.cmd_spec (Build.build_self TypedWideExamples.WideEx.c0)] /\
+    TypedMerge.globals_consistent
+      (Parser.used_global_args (S (Parser.matches_depth (Matcher.into_inner (Parser.mt st))))
+         (Build.build_recursive (S (S (Cmd.depth (Build.build_self TypedWideExamples.WideEx.c0))))
+            TypedWideExamples.WideEx.c0) (Matcher.into_inner (Parser.mt st)))
+      [TypedMerge.cmd_spec (Build.build_self TypedWideExamples.WideEx.c0)]
+      (Globals.levels (Matcher.into_inner (Parser.mt st))).
+Proof. exact TypedWideExamples.WideEx.ex_wide_root. Qed.
+Print Assumptions C04_ex_wide_root.
+
+(** C10's language predicate (ErrorSound.in_lang: what C10_kind_sound says a rejected value is NOT in) is the documented
+    language, for all ten parser names *)
+Theorem C04_in_lang_reading :
+  forall (vp : Cmd.vparser) (s : bytes), ErrorSound.in_lang vp s <-> TypedWide.stored_reading vp s.
+Proof. exact TypedWide.in_lang_reading. Qed.
+Print Assumptions C04_in_lang_reading.
+
+(** two names, one parser: the parser model's older constructors are instances of VPRanged (the i64 parser with
+    inclusive bounds; the u8 parser an ArgAction::Count argument gets by default) -- so every statement about
+    VPRanged also reads the older ones, and vice versa *)
+Theorem C04_ranged_alias :
+  forall (lo hi : Z) (s : bytes),
+         Parser.vp_parse (Cmd.VPRanged I64 lo hi) s = Parser.vp_parse (Cmd.VPI64 lo hi) s /\
+         Parser.vp_parse (Cmd.VPRanged U8 0 255) s = Parser.vp_parse Cmd.VPCount s.
+Proof. exact TypedWide.ranged_alias. Qed.
+Print Assumptions C04_ranged_alias.
+
+(** "anything else is rejected with a value error", at the parser model's value parsers, all ten names: a string
+    outside the documented language gets one of the three value-error kinds (InvalidUtf8 only when it is ill-formed);
+    push_arg_values then raises it with the argument's id (C10: push_arg_values_sound), and C04_value_error_sound
+    traces every value error of parse_top back to such a refusal.  Conversely a refusal means "outside". *)
+Theorem C04_outside_reading_rejected :
+  forall (vp : Cmd.vparser) (s : bytes),
+         ~ TypedWide.stored_reading vp s ->
+         exists k : Errors.ekind,
+           Parser.vp_parse vp s = Some k /\
+           In k [Errors.EInvalidUtf8; Errors.EInvalidValue; Errors.EValueValidation] /\
+           (k = Errors.EInvalidUtf8 -> utf8_valid s = false).
+Proof. exact TypedWide.outside_reading_rejected. Qed.
+Print Assumptions C04_outside_reading_rejected.
+
+Theorem C04_rejected_outside_reading :
+  forall (vp : Cmd.vparser) (s : bytes) (k : Errors.ekind),
+         Parser.vp_parse vp s = Some k -> ~ TypedWide.stored_reading vp s.
+Proof. exact TypedWide.rejected_outside_reading. Qed.
+Print Assumptions C04_rejected_outside_reading.
